@@ -409,6 +409,62 @@ func c18r2(c *core.Ctx) {
 		})
 		c.Check(ok, "path-in-storage-dir", f.Pos(), "the file lives in the storage directory", "the file path is not built inside the storage directory")
 	}
+	// different keys, different files: the file name is the key with, at most, constant text added or a constant substring removed
+	// everywhere. A name that is cut to a maximum length, hashed to a few bytes or chosen between alternatives maps several keys to one file.
+	if sh := destShape(p); sh != "" {
+		get := p.Func("util", "(*fileStorage).Get")
+		c.Check(injectiveShape(sh), "file-name-injective", get.Pos(), "the file of a key is "+sh, "the file of a key is computed as "+sh+": not the whole key (cut, merged from alternatives, or of unknown form) — two different keys can be stored in one file, and each overwrites, answers for and deletes the other")
+	}
+}
+
+// injectiveShape: path/filepath.Join(DIR, N) where N is KEY, strings.Replace(N,"c1","c2",-1), N+"const" or "const"+N.
+func injectiveShape(sh string) bool {
+	const join = "path/filepath.Join(DIR,"
+	if !strings.HasPrefix(sh, join) || !strings.HasSuffix(sh, ")") {
+		return false
+	}
+	var name func(s string) bool
+	name = func(s string) bool {
+		if s == "KEY" {
+			return true
+		}
+		if strings.HasPrefix(s, "strings.Replace(") && strings.HasSuffix(s, ",-1)") {
+			in := s[len("strings.Replace(") : len(s)-len(",-1)")]
+			// N,"old","new"  — split at the last two top-level quoted constants
+			k2 := strings.LastIndex(in, ",\"")
+			if k2 < 0 {
+				return false
+			}
+			k1 := strings.LastIndex(in[:k2], ",\"")
+			if k1 < 0 {
+				return false
+			}
+			return name(in[:k1])
+		}
+		if strings.HasPrefix(s, "strings.ReplaceAll(") && strings.HasSuffix(s, ")") {
+			in := s[len("strings.ReplaceAll(") : len(s)-1]
+			k2 := strings.LastIndex(in, ",\"")
+			if k2 < 0 {
+				return false
+			}
+			k1 := strings.LastIndex(in[:k2], ",\"")
+			if k1 < 0 {
+				return false
+			}
+			return name(in[:k1])
+		}
+		// constant prefix / suffix
+		if k := strings.LastIndex(s, "+\""); k > 0 && strings.HasSuffix(s, "\"") && !strings.Contains(s[k+2:len(s)-1], "\"") {
+			return name(s[:k])
+		}
+		if strings.HasPrefix(s, "\"") {
+			if k := strings.Index(s[1:], "\"+"); k >= 0 {
+				return name(s[k+3:])
+			}
+		}
+		return false
+	}
+	return name(sh[len(join) : len(sh)-1])
 }
 
 func c18r3(c *core.Ctx) {
@@ -886,6 +942,20 @@ func errNilOfAny(pred func(ssa.Instruction) bool, idx int) core.CondFact {
 
 func c19r3(c *core.Ctx) {
 	p := c.P
+	// Get reads the file of the key and no other: a temporary file is complete only once it has been renamed, so a Get that
+	// "recovers" a value from one hands out whatever part of it had been written when the process died
+	if shs := readShapes(p); len(shs) > 0 {
+		same := true
+		for _, sh := range shs {
+			if sh != shs[0] {
+				same = false
+			}
+		}
+		c.Check(same, "get-reads-only-the-destination", p.Func("util", "(*fileStorage).Get").Pos(), "every file Get opens is "+shs[0],
+			"Get opens files of different names ("+strings.Join(shs, " | ")+"): besides the file of the key it reads another one (a temporary file of an interrupted write): a partly written value is handed out as the stored one")
+	} else {
+		c.Undecided("get-reads", token.NoPos, "no file is opened by Get")
+	}
 	set := storageSet(p)
 	if set == nil {
 		c.Undecided("Set", token.NoPos, "not found")
@@ -1192,12 +1262,20 @@ func pathShape(v ssa.Value, isKey func(ssa.Value) bool, env pathEnv, depth int) 
 
 // destShape: the shape of the path Get opens — the reference for "the file of a key".
 func destShape(p *core.Program) string {
+	if all := readShapes(p); len(all) > 0 {
+		return all[0]
+	}
+	return ""
+}
+
+// readShapes: the shapes of all paths Get opens for reading, in program order.
+func readShapes(p *core.Program) []string {
 	get := p.Func("util", "(*fileStorage).Get")
 	if get == nil {
-		return ""
+		return nil
 	}
 	key := get.Params[1]
-	shape := ""
+	var shapes []string
 	var walk func(g *ssa.Function, env pathEnv, isKey func(ssa.Value) bool, d int)
 	walk = func(g *ssa.Function, env pathEnv, isKey func(ssa.Value) bool, d int) {
 		core.Instrs(g, func(i ssa.Instruction) {
@@ -1207,9 +1285,7 @@ func destShape(p *core.Program) string {
 			}
 			q := core.QualName(h)
 			if q == "os.OpenFile" || q == "os.Open" || q == "io/ioutil.ReadFile" || q == "os.ReadFile" {
-				if shape == "" {
-					shape = pathShape(core.CallOf(i).Args[0], isKey, env, 8)
-				}
+				shapes = append(shapes, pathShape(core.CallOf(i).Args[0], isKey, env, 8))
 				return
 			}
 			if core.InModule(h) && h.Blocks != nil && d > 0 {
@@ -1227,5 +1303,5 @@ func destShape(p *core.Program) string {
 		})
 	}
 	walk(get, pathEnv{}, func(v ssa.Value) bool { return v == ssa.Value(key) }, 2)
-	return shape
+	return shapes
 }
